@@ -27,7 +27,9 @@ type modeCfg struct {
 }
 
 var modes = []modeCfg{
-	{"constant", func(n int) map[string]string { return map[string]string{"rate": fmt.Sprintf("%d/100ms", n), "distribution": "none"} }},
+	{"constant", func(n int) map[string]string {
+		return map[string]string{"rate": fmt.Sprintf("%d/100ms", n), "distribution": "none"}
+	}},
 	{"staged", func(n int) map[string]string {
 		return map[string]string{"stages": fmt.Sprintf("0s:%d,10s:%d", n, n), "iterationFrequency": "100ms", "distribution": "none"}
 	}},
